@@ -21,9 +21,14 @@ package cmd
 
 // koanf's struct provider (structs.Provider) walks the manifest object graph field by field and does not terminate
 // on a cycle (library fact): the caller must hand over a manifest in which no previous version is the package itself.
+// koanf's struct provider copies the manifest graph into maps path by path: a package that is imported along n paths
+// is copied n times (nine layers of five packages importing the next layer: 5^9 copies, several GB). Without any
+// override there is nothing to apply, and nothing may be copied.
 //@ func updatePackageInfoFromArgs
 //@   property C10
 //@   requires packageInfo != nil
+//@   ensures without_overrides_the_manifest_is_not_copied: old(len(configArgs)) == 0 ==> !called("github.com/knadh/koanf/v2.(*Koanf).Load")
+//@   ensures without_overrides_nothing_fails: old(len(configArgs)) == 0 ==> result == nil
 //@   requires manifest_graph_is_acyclic: forall k in 0..len(packageInfo.Versions) :: packageInfo.Versions[k].Package != packageInfo
 
 // ---- C09 / C11: errors of every nested parse / validate / evolution step propagate -----------------------
